@@ -412,7 +412,7 @@ func mgRandom(rng *rand.Rand) *mgCmd {
 	case "faces":
 		g.HasName = false
 		g.FaceRole = pickS("real0", "real1", "real0", "missing", "none")
-		g.Mtu = pickS("0", "1", "50", "63", "64", "127", "128", "1500", "8800", "4294967296")
+		g.Mtu = pickS("0", "1", "50", "63", "64", "127", "128", "1500", "8800", "8801", "4294967296", "9223372036854775808", "18446744073709551615")
 	default:
 		if rng.Intn(8) == 0 {
 			g.HasName = false
